@@ -146,12 +146,34 @@ def theorems_of(pid: str) -> tuple[str, list[str]]:
     return (ns.group(1) if ns else ""), THEOREM_RE.findall(text)
 
 
-def forbidden_scan() -> list[str]:
-    """Grep every Lean source file of the project for tokens that would void a proof."""
-    hits = []
-    for path in sorted(LEAN_DIR.rglob("*.lean")):
-        if ".lake" in path.parts:
+IMPORT_RE = re.compile(r"^import\s+(StepupModel(?:\.[A-Za-z0-9_]+)*|Driver)\s*$", re.M)
+
+
+def import_closure(roots: list[str]) -> list[Path]:
+    """The project's own source files a module depends on (transitively), the roots included."""
+    seen: dict[str, Path] = {}
+    todo = list(roots)
+    while todo:
+        mod = todo.pop()
+        if mod in seen:
             continue
+        path = LEAN_DIR / (mod.replace(".", "/") + ".lean")
+        if not path.exists():
+            continue
+        seen[mod] = path
+        todo.extend(IMPORT_RE.findall(strip_lean_comments(path.read_text())))
+    return sorted(seen.values())
+
+
+def forbidden_scan(pid: str | None = None) -> list[str]:
+    """Grep the Lean sources for tokens that would void a proof: every file the property's theorems
+    and the model driver depend on (all project files when no property is given)."""
+    hits = []
+    if pid is None:
+        paths = [p for p in sorted(LEAN_DIR.rglob("*.lean")) if ".lake" not in p.parts]
+    else:
+        paths = import_closure([f"StepupModel.Props.{pid}", "Driver"])
+    for path in paths:
         text = strip_lean_comments(path.read_text())
         for m in FORBIDDEN_TOKENS.finditer(text):
             line = text.count("\n", 0, m.start()) + 1
@@ -204,7 +226,7 @@ def audit(pid: str) -> AuditResult:
         if extra:
             bad[name] = extra
     missing = [n for n in names if n.split(".")[-1] not in theorems]
-    return AuditResult(theorems, bad, missing, forbidden_scan(), out)
+    return AuditResult(theorems, bad, missing, forbidden_scan(pid), out)
 
 
 def leanchecker(modules: list[str], timeout: int = 1800) -> tuple[bool, str]:
